@@ -1,10 +1,10 @@
 CONSTANTS
-  Workers <- Workers_wall0
-  NTs <- NTs_wall0
-  ThreadNames <- Threads_wall0
+  Workers <- MCWorkers
+  NTs <- MCNTs
+  ThreadNames <- MCThreads
   WyFix = TRUE
   AllowSpurious = FALSE
-INIT Init_wall0
+INIT MCInit
 NEXT Next
 CHECK_DEADLOCK TRUE
 INVARIANTS TypeOK NoBad FuncOnce ReadyImpliesRan GetsAgree DeallocOnce RefsSane ThenAfterReady TsWaitImpliesReady CountersSane AtEnd WhenAllReady WhenAnyReady CombFOnce
